@@ -422,9 +422,17 @@ pub fn gen_path(_tier: &str, seed: u64, out: &mut dyn Write) {
 
 const KEY_POOL: [&str; 12] =
     ["a", "a/b", "a/b/c", "b", "./a", "a/../b", "..", "../x", "/abs", "", "a/", "a//b"];
-const KEY_EXTRA: [&str; 9] = ["b/a", ".", "a/b/", "c", "a/.", "b/", "a/b/c/d", "./a/b", "/abs/x"];
-const TREE_DATA: [&str; 7] = ["a", "b", "a/b", "a/b/c", "c", "b/a", "a/c"];
-const TREE_IMG: [&str; 4] = ["a", "b", "c", "a/b"];
+const KEY_EXTRA: [&str; 17] = [
+    "b/a", ".", "a/b/", "c", "a/.", "b/", "a/b/c/d", "./a/b", "/abs/x",
+    // hidden names and other dot-laden *normal* components (not the `.`/`..` path components)
+    ".hidden", "a/.lock", ".cache/x", "..hidden", "...", "a.", ".b.png", ".c/.d",
+];
+const TREE_DATA: [&str; 15] = [
+    "a", "b", "a/b", "a/b/c", "c", "b/a", "a/c",
+    ".hidden", "a/.lock", ".cache/x", "..hidden", "...", "a.", ".c/.d", "com.example.tool/.lock",
+];
+const TREE_IMG_FLAT: [&str; 8] = ["a", "b", "c", ".b.png", ".hidden", "...", "a.", "..hidden"];
+const TREE_IMG_SUB: [&str; 3] = ["a/b", ".h/x", "c/.d"];
 
 fn content(rng: &mut Rng, kind: &str) -> Vec<u8> {
     let png_bias = if kind == "i" { 7 } else { 2 };
@@ -469,9 +477,9 @@ fn tree_path(rng: &mut Rng, kind: &str) -> &'static str {
     if kind == "d" {
         TREE_DATA[rng.below(TREE_DATA.len())]
     } else if rng.chance(1, 12) {
-        TREE_IMG[3]
+        TREE_IMG_SUB[rng.below(TREE_IMG_SUB.len())]
     } else {
-        TREE_IMG[rng.below(3)]
+        TREE_IMG_FLAT[rng.below(TREE_IMG_FLAT.len())]
     }
 }
 
